@@ -466,3 +466,17 @@ PROPS = {
                         "restoring with the saved entry value does not raise"],
     },
 }
+
+# ---- additions made after the first registration -------------------------------------------------------------------
+PROPS["C07"]["text"] += (
+    "; ADDITIONALLY (Props/C07b.lean, 58 theorems over Model/Metrics2.lean): spec / symm / self / defined over R for standardised_euclidean, "
+    "weighted_minkowski, mahalanobis (symmetric for every matrix; sqrt defined for positive semi-definite vinv), haversine with its clamp (radicand in "
+    "[0,1] for all reals and arcsin argument in [0,1] for every non-negative radicand), jensen_shannon and symmetric_kl with the FLOAT32_EPS smoothing, "
+    "wasserstein_1d (l_p distance of the CDFs), bit_hamming / bit_jaccard over bytes (popcount table checked for all 256 bytes), spearmanr (over the result "
+    "of rankdata), tsss; and GUARDEDNESS UNDER ROUNDING: over every carrier satisfying only the sign/order facts that R and IEEE arithmetic share (class "
+    "RArith; RArithNU adds 'no underflow of a product of positives'), each kernel with a partial operation behind a guard or clamp (hellinger, "
+    "correct_alternative_hellinger, tsss, true_angular, haversine, canberra, bray_curtis, bit_jaccard, cosine; correlation modulo Cauchy-Schwarz) never "
+    "evaluates sqrt / log / arccos / arcsin / division outside its domain, and the pre-repair shapes (hellinger without max, haversine without min) do "
+    "on a cooked carrier; the new kernels run over float64 against the real ones (harness/c07_model2.py)")
+PROPS["C01"]["text"] += ("; reported_distance_true composes the invariant with the C09 inversion: with a monotone correction that inverts the surrogate, every "
+                         "reported distance is the documented metric of the two rows it names and reported rows run closest-first")
